@@ -121,10 +121,41 @@ let consts () =
     done;
     print_newline ()) [4; 8]
 
+(* the model's operand-count rule on all 64 used/empty patterns of the six slots (bit i of the pattern = slot i used) *)
+let opcount () =
+  let used = { Builder.o_sig = cz_of_int 1; o_id = cz_of_int 0; o_d0 = cz_of_int 0; o_d1 = cz_of_int 0 } in
+  for pat = 0 to 63 do
+    let o i = if (pat lsr i) land 1 = 1 then used else op_none in
+    let n = Builder.op_count (o 0) (o 1) (o 2) (o 3) (o 4) (o 5) in
+    Printf.printf "OPCOUNT %d %d %d\n" pat (int_of_nat n) (int_of_nat (Builder.capacity_of n))
+  done
+
+(* X86Dec.dec_x86 on operands given as four raw words per line, printed in the token language of the harness' `dec` mode *)
+let dec () =
+  try
+    while true do
+      let line = input_line stdin in
+      let t = Array.of_list (List.filter (fun s -> s <> "") (String.split_on_char ' ' (String.trim line))) in
+      if Array.length t >= 4 then begin
+        match Builder.dec_x86 (mkop t 0) with
+        | Builder.ONone -> print_endline "N"
+        | Builder.OReg (rt, id) -> Printf.printf "R %s %s\n" (string_of_cn rt) (string_of_cn id)
+        | Builder.OMem (sz, bt, bid, it, iid, off, seg, bc, home) ->
+          Printf.printf "M %s %s %s %s %s %s %s %s %d\n" (string_of_cn sz) (string_of_cn bt) (string_of_cn bid) (string_of_cn it) (string_of_cn iid)
+            (string_of_cz off) (string_of_cn seg) (string_of_cn bc) (if home then 1 else 0)
+        | Builder.OImm v -> Printf.printf "I %s\n" (string_of_cz v)
+        | Builder.OLabel -> print_endline "L"
+      end
+    done
+  with End_of_file -> ()
+
 let () =
   let verbose = Array.exists (fun s -> s = "-v") Sys.argv in
+  if Array.exists (fun s -> s = "-dec") Sys.argv then (dec (); exit 0);
   if Array.exists (fun s -> s = "-consts") Sys.argv then (consts (); exit 0);
+  if Array.exists (fun s -> s = "-opcount") Sys.argv then (opcount (); exit 0);
   let st = ref (Builder.init_state (cz_of_int 8)) and pidx = ref (-1) and step = ref 0 and active = ref false and in_ref = ref false in
+  let validate = ref false and x64 = ref true in
   let errs : (int, bool) Hashtbl.t = Hashtbl.create 64 in      (* command index -> rejected by the model *)
   let refcmds = ref [] in
   try
@@ -136,6 +167,9 @@ let () =
         | "P" ->
           pidx := int_of_string toks.(1);
           st := Builder.init_state (cz_of_int (if toks.(2) = "0" then 4 else 8));
+          (* x86 programs under strict validation: the verdict of every _emit is computed by C13's validator model over the generated tables *)
+          validate := (toks.(2) <> "2") && (Array.length toks > 5) && ((int_of_string toks.(5)) land 4 <> 0);
+          x64 := (toks.(2) = "1");
           step := 0; active := true; in_ref := false; Hashtbl.reset errs; refcmds := []
         | "X" -> in_ref := true
         | "END" ->
@@ -164,7 +198,13 @@ let () =
         | _ when !active && not !in_ref ->
           (match cmd_of !st toks with
            | Some c ->
-             let (b, e) = Builder.step !st c in
+             (* strict validation on x86: the proven function X86Dec.emit_validated_x86 decides (C13's validate over the generated tables) *)
+             let (b, e) = match c with
+               | Builder.CEmit (id, o0, o1, o2, o3, o4, o5) when !validate ->
+                 let (b, e) = Builder.emit_validated_x86 Builder.x86_vtables !x64 false !st id o0 o1 o2 o3 o4 o5 in
+                 Printf.printf "p%d VERDICT %d %s\n" !pidx !step (zs e);
+                 (b, e)
+               | _ -> Builder.step !st c in
              st := b;
              if z_of_cz e <> Z.zero then Hashtbl.replace errs !step true;
              let d = dump b in
